@@ -211,9 +211,15 @@ def known_findings():
 
 # ---------------------------------------------------------------- worker plumbing
 _JOBFN = {}
+_DEADLINE = [None]      # wall-clock limit of the whole tier: jobs that have not started by then are inconclusive (never success), running ones get the remaining time
 def _worker(job):
     name, fn, kw, budget = job
     res = Res(name); t0 = time.time()
+    if _DEADLINE[0] is not None:
+        left = int(_DEADLINE[0] - t0)
+        if left <= 1:
+            res.inc(f'{name}: tier deadline reached before this job started'); return res
+        budget = min(budget, left)
     def onalarm(sig, frm): raise TimeoutError(f'job watchdog {budget}s')
     signal.signal(signal.SIGALRM, onalarm); signal.alarm(budget)
     try:
@@ -249,6 +255,7 @@ def run_property(pid, tier, harness, jobs, jobfns, level_text, assumptions, boun
             write_evidence(pid, tier, seed, [st], time.time() - t0, level_text, assumptions, bounds, outside, [], [], broken=True)
             return 3
     results = [st]
+    _DEADLINE[0] = t0 + float(os.environ.get('VERIF_DEADLINE_S') or (1500 if tier == 'quick' else 6 * 3600))
     if jobs:
         ctx = mp.get_context('fork')
         with ctx.Pool(min(nproc, len(jobs))) as pool:
